@@ -436,6 +436,18 @@ where
                         .await
                 }
             }
+            Decoded::Packet(
+                pkt @ (Packet::Connect(_)
+                | Packet::ConnectAck(_)
+                | Packet::SubscribeAck(_)
+                | Packet::UnsubscribeAck(_)
+                | Packet::PingResponse),
+                _,
+            ) => Err(ProtocolError::unexpected_packet(
+                pkt.packet_type(),
+                "Packet of the type is not expected from client",
+            )
+            .into()),
             Decoded::Packet(_, _) => Ok(None),
         }
     }
